@@ -84,6 +84,17 @@ def families(tier, seed):
         out.append(dict(name=f'translate e2e (next-state operands) L={L} {fml}', run=pn.h_translate_e2e(fml, L), label='bounded'))
     for fml in pn.E2E_UNTIL:
         out.append(dict(name=f'translate e2e (until=True) L={L} {fml}', run=pn.h_translate_e2e(fml, L, until=True), label='bounded'))
+    for until, fmls in ((True, pn.E2E_MIXED), (True, pn.E2E_UNTIL), (False, pn.E2E[::3])):
+        for fml in fmls:
+            out.append(dict(name=f'translate: debug=True only reorders (until={until}) {fml}', run=pn.h_debug_same(fml, until), label='bounded'))
+    # the other entry points (debug=True, map_translate with a repeated formula, a tree flattened twice)
+    k = 0
+    for until, fmls in ((False, pn.E2E), (True, pn.E2E_UNTIL), (False, pn.E2E_NEXT)):
+        for fml in fmls:
+            k += 1
+            entry = pn.ENTRIES[1 + k % 3]
+            out.append(dict(name=f'translate e2e via {entry}{" (until=True)" if until else ""} L={L} {fml}',
+                            run=pn.h_translate_e2e(fml, L, until=until, entry=entry), label='bounded'))
     from contracts import optdiff as _od
     out.append(dict(name='same results with assert statements stripped (python -O), section C15', run=_od.family('C15'), label='bounded'))
     return out
